@@ -87,6 +87,11 @@ func (o *objM) MarshalZerologObject(e *zerolog.Event) {
 	}
 }
 
+type typeStruct struct {
+	A int
+	B string
+}
+
 var families = []string{"str", "strs", "bytes", "hex", "bool", "bools", "int", "int8", "int16", "int32", "int64", "ints", "ints8", "ints16", "ints32", "ints64",
 	"uint", "uint8", "uint16", "uint32", "uint64", "uints", "uints8", "uints16", "uints32", "uints64", "float32", "float64", "floats32", "floats64",
 	"time", "times", "dur", "durs", "timediff", "timestamp", "err", "anerr", "rawjson", "type", "dict", "array", "object", "func"}
@@ -218,8 +223,25 @@ func compile(steps []Step, depth int) []func(*zerolog.Event) *zerolog.Event {
 			x := rawVals[pick(len(rawVals), v)]
 			f = func(e *zerolog.Event) *zerolog.Event { return e.RawJSON(k, x) }
 		case "type":
-			x := typeVals[pick(len(typeVals), v)]
-			f = func(e *zerolog.Event) *zerolog.Event { return e.Type(k, x) }
+			// half of the selectors hand Type a value that is boxed at the call site (struct, large int,
+			// string, float variables): free only while Type's argument does not escape
+			switch v % 8 {
+			case 1:
+				x := typeStruct{A: v, B: "b"}
+				f = func(e *zerolog.Event) *zerolog.Event { return e.Type(k, x) }
+			case 3:
+				x := 1000 + v
+				f = func(e *zerolog.Event) *zerolog.Event { return e.Type(k, x) }
+			case 5:
+				x := strVals[pick(len(strVals), v)] + "!"
+				f = func(e *zerolog.Event) *zerolog.Event { return e.Type(k, x) }
+			case 7:
+				x := 1234.5 + float64(v)
+				f = func(e *zerolog.Event) *zerolog.Event { return e.Type(k, x) }
+			default:
+				x := typeVals[pick(len(typeVals), v)]
+				f = func(e *zerolog.Event) *zerolog.Event { return e.Type(k, x) }
+			}
 		case "dict":
 			sub := compile(s.Sub, depth+1)
 			f = func(e *zerolog.Event) *zerolog.Event {
